@@ -190,7 +190,7 @@ Definition select_transitions (cfg : list nat) (h : hv) (ev : option event) (x :
 Record eset := {
   e_enter : list nat;                 (* statesToEnter *)
   e_default : list nat;               (* statesForDefaultEntry *)
-  e_histcontent : list (nat * nat)    (* defaultHistoryContent: parent -> transition index *)
+  e_histcontent : list (nat * nat)    (* defaultHistoryContent: a table parent -> transition index (at most one entry per parent) *)
 }.
 
 Definition some_descendant_of (l : list nat) (child : nat) := existsb (fun s => is_descendant s child) l.
@@ -209,8 +209,9 @@ Fixpoint add_descendants (fuel : nat) (h : hv) (s : nat) (e : eset) {struct fuel
         match fs_trans (st c s), fs_parent (st c s) with
         | ti :: _, Some p =>
           let tg := ft_targets (tr c ti) in
+          (* defaultHistoryContent[state.parent.id] = ...: a table, an assignment replaces an earlier one for the same parent *)
           let e0 := {| e_enter := e_enter e; e_default := e_default e;
-                       e_histcontent := (p, ti) :: e_histcontent e |} in
+                       e_histcontent := (p, ti) :: filter (fun q => negb (fst q =? p)) (e_histcontent e) |} in
           let e1 := fold_left (fun e x => add_descendants f h x e) tg e0 in
           fold_left (fun e x => add_anc x (Some p) e) tg e1
         | _, _ => e
